@@ -143,3 +143,19 @@ Theorem C03_never_reverses_refuted_without_traction :
              PrimFloat.ltb 0%float (k_speed_target (ts_k (sl_st s'))) = true /\
              PrimFloat.ltb (k_speed (ts_k (sl_st s'))) 0%float = true.
 Proof. exact StepReverseWitness.step_reverses_witness. Qed.
+
+(* (imported here, after the statements above, to keep their name resolution unchanged) *)
+From AltModel Require Import SpeedPoints PathGeom TrainEnergy WholeSim.
+From AltProofs Require Import SpeedPointsP PathGeomP WholeSplitP TimedTraceP.
+
+(* ---- the simulation of a DISPATCHED train (SpeedLimitTrainSim::walk_timed_path, model WholeSim.sl_timed_walk, tied to
+   the real function end to end by check C11; proofs/TimedTraceP.v): it consists of whole steps and braking-point
+   re-computations only, the braking points every step runs under (produced by extend_path's recalc from the state at
+   that moment) all have 0 <= target <= limit, and so at EVERY step the saved row has 0 <= target <= limit and the
+   speed the step started from is <= that limit; the walk ends in the stopping window of the path supplied
+   (C11_dispatched_train_simulation).  Hypotheses: non-negative step size and positive mass at the start. ---- *)
+Theorem C03_dispatched_train : forall fuel_bp fuel_steps (net : list LinkR) (tp : TPR) tl rp fmax fb st cache (con : ConsistR) x',
+  sl_timed_walk fuel_bp fuel_steps net tp tl rp fmax fb st cache con = Ok x' ->
+  0 <= k_dt (ts_k st) -> 0 < mass_compound (ts_p st) ->
+  tw_trace fmax (Forall pt_ok) limit_step ({| sl_st := st; sl_cache := cache; sl_fb := fb; sl_idx := 0 |}, con) x'.
+Proof. exact sl_timed_walk_limits. Qed.
